@@ -478,3 +478,89 @@ Proof.
   unfold loaded. cbn [v_addr v_style v_state v_pages v_pending v_chunks v_w v_h v_type].
   repeat split; try assumption; try reflexivity.
 Qed.
+
+(* ------------------------------------------------------------------ *)
+(* The same on a scripted bus: what a weaving P sends that is not for other signs is what Q sends -- against the replies
+   P's own messages got ([own_script]) -- or a prefix of it when P's run ended inside a conversation for another sign
+   (a bus error or the end of the script there). *)
+
+Definition foreignb (a : N) (m : msg) : bool :=
+  match msg_target m with
+  | Some a' => negb (a' =? a)
+  | None => false
+  end.
+
+Lemma foreignb_own a m : own_msg a m -> foreignb a m = false.
+Proof.
+  unfold own_msg, foreignb. intros [H|H]; rewrite H; [|reflexivity].
+  rewrite N.eqb_refl. reflexivity.
+Qed.
+
+Lemma foreignb_foreign a m : foreign_msg a m -> foreignb a m = true.
+Proof.
+  unfold foreign_msg, foreignb. intros (a' & H & Hne). rewrite H.
+  destruct (N.eqb_spec a' a) as [E|_]; [contradiction|reflexivity].
+Qed.
+
+(* the replies that P's own messages got, in order *)
+Fixpoint own_script {A : Type} (a : N) (p : prog A) (script : list reply) : list reply :=
+  match p with
+  | Send m k =>
+      match script with
+      | Rep r :: s' => if foreignb a m then own_script a (k r) s' else Rep r :: own_script a (k r) s'
+      | BusErr :: _ => if foreignb a m then [] else [BusErr]
+      | [] => []
+      end
+  | _ => []
+  end.
+
+Definition own_part (a : N) (tr : list msg) : list msg := filter (fun m => negb (foreignb a m)) tr.
+
+Theorem weave_script {A : Type} a (P Q : prog A) : weave a P Q ->
+  forall script,
+    (own_part a (fst (run_script P script)) = fst (run_script Q (own_script a P script))
+     /\ snd (run_script P script) = snd (run_script Q (own_script a P script)))
+    \/ ((snd (run_script P script) = BusFailed \/ snd (run_script P script) = Blocked)
+        /\ exists rest, fst (run_script Q (own_script a P script)) = own_part a (fst (run_script P script)) ++ rest).
+Proof.
+  induction 1 as [x| | |m k k' Hm _ IH|m k Q Hm _ IH]; intros script;
+    try (left; split; reflexivity).
+  - pose proof (foreignb_own a m Hm) as Hf.
+    destruct script as [|[|r] s'].
+    + left. cbn [run_script own_script fst snd own_part filter]. rewrite Hf. cbn [negb]. split; reflexivity.
+    + left. cbn [run_script own_script fst snd own_part filter]. rewrite Hf. cbn [negb run_script fst snd].
+      split; reflexivity.
+    + cbn [own_script]. rewrite Hf. cbn [run_script].
+      destruct (run_script (k r) s') as [trP oP] eqn:EP.
+      destruct (run_script (k' r) (own_script a (k r) s')) as [trQ oQ] eqn:EQ.
+      specialize (IH r s'). rewrite EP, EQ in IH. cbn [fst snd] in IH |- *.
+      unfold own_part in *. cbn [filter]. rewrite Hf. cbn [negb].
+      destruct IH as [[H1 H2]|[H1 [rest H2]]].
+      * left. split; [f_equal; exact H1|exact H2].
+      * right. split; [exact H1|]. exists rest. cbn [app]. f_equal. exact H2.
+  - pose proof (foreignb_foreign a m Hm) as Hf.
+    destruct script as [|[|r] s'].
+    + right. cbn [run_script own_script fst snd]. split; [right; reflexivity|].
+      unfold own_part. cbn [filter]. rewrite Hf. cbn [negb app]. eexists. reflexivity.
+    + right. cbn [run_script own_script fst snd]. rewrite Hf. split; [left; reflexivity|].
+      unfold own_part. cbn [filter]. rewrite Hf. cbn [negb app]. eexists. reflexivity.
+    + cbn [own_script]. rewrite Hf. cbn [run_script].
+      destruct (run_script (k r) s') as [trP oP] eqn:EP.
+      specialize (IH r s'). rewrite EP in IH. cbn [fst snd] in IH |- *.
+      unfold own_part in *. cbn [filter]. rewrite Hf. cbn [negb]. exact IH.
+Qed.
+
+(* For send_pages over a source that talks to other signs only: what the call itself sends is what send_pages over the
+   plain list sends (C09's shape theorems are about that), or a prefix of it. *)
+Corollary send_pages_gen_own_part a src ps script :
+  Forall (fun it => fpre a (fst it)) src -> map snd src = map p_bytes ps ->
+  exists rest,
+    fst (run_script (send_pages a ps) (own_script a (send_pages_gen a src) script))
+    = own_part a (fst (run_script (send_pages_gen a src) script)) ++ rest.
+Proof.
+  intros Hsrc Hb. pose proof (weave_send_pages a src Hsrc) as Hw. rewrite Hb in Hw.
+  fold (send_pages a ps) in Hw.
+  destruct (weave_script a _ _ Hw script) as [[H1 _]|[_ [rest H2]]].
+  - exists []. rewrite app_nil_r. symmetry. exact H1.
+  - exists rest. exact H2.
+Qed.
